@@ -170,6 +170,28 @@ CHECKS['C14'] = dict(
     note='stats()/reset() are not data operations and are not driven. A call that returns while the holder still owns '
          'the lock is a violation.')
 
+CHECKS['C16'] = dict(
+    level='exploration', ref='3/C16',
+    technique='runtime monitoring: end-to-end token oracle over the complete small-arity signature space (a collision '
+              'returns another call\'s token), independent serialized-key distinctness monitor, execution counter, '
+              'virtual clock for expiry; known-finding classifier by mechanism',
+    text='All ~5k signatures (<= 2 positionals + every (x,None,y) pattern, kwargs subset of {a,b}, 7-value alphabet) x '
+         'typed x 4 ignore sets x name given/derived x 5 decorators are called on one cache per configuration (~410k '
+         'wrapper calls, ~4e8 key pairs compared per quick run; half of the configurations use a third of the space in '
+         'the quick tier), plus expiry, expire=0, falsy results and derived-name separation.',
+    note='"Same arguments" = same binding, values equal under == (and equal types when typed) after removing ignored '
+         'arguments. K3 (positional None separator) is classified by mechanism.')
+CHECKS['C17'] = dict(
+    level='fault_enumeration', ref='3/C17',
+    technique='runtime monitoring + damage injection: every damage kind and seeded combinations applied behind the '
+              'library\'s back; ground-truth warning oracle, bit-level snapshot equality for plain check(), '
+              'repair-then-clean, readability and untouched-item monitors',
+    text='All 7 single damage kinds x {Cache, FanoutCache shard} (3 repetitions) plus ~1.3k random combinations of 2-5 '
+         'damages per quick run; check() must report exactly the injected damage and change nothing; check(fix=True) '
+         'must leave a clean, readable cache with undamaged items untouched.',
+    note='K4 (truncated pickle/text file kept unreadable) is classified by mechanism. Debris of killed processes and '
+         'failed writes is repaired inside C07 and C08.')
+
 NOT_YET = {}
 
 
